@@ -5,6 +5,9 @@ CONSTANTS
   StaticKinds = {}
   Depth = 0
   ShallowDepth = 0
+  Media = {"mem"}
+  Sizes = {"small"}
+  BigSaves = 1
   Variant = "faithful"
 INVARIANT AtEnd
 POSTCONDITION Accepted
